@@ -120,7 +120,7 @@ def multi_gen(rng, tier, *, weights, flags_p=0.5, engines=None, max_ops=None, **
     return {"config": swarm_config(rng), "ops": g.build()}
 
 
-MULTI_W = {**UNARY_W, "xfer": 4, "mat": 1.2, "chain": 1, "join": 1.2, "leaf": 1, "chain_empty": 0.3, "roundtrip_empty": 0.25}
+MULTI_W = {**UNARY_W, "xfer": 4, "mat": 1.2, "chain": 1, "join": 1.2, "leaf": 1, "chain_empty": 0.3, "roundtrip_empty": 0.25, "mark": 0.6}
 
 
 class C03(Profile):
@@ -345,7 +345,8 @@ class C07(Profile):
         return self.claims.get(kind)
 
     def gen(self, rng, tier):
-        w = {**UNARY_W, "xfer": 5, "mat": 3, "chain": 1.5, "chain_empty": 1.2, "roundtrip_empty": 0.5, "roundtrip_mat": 0.3, "join": 0.6, "leaf": 1.5, "process": 5, "run": 1}
+        w = {**UNARY_W, "xfer": 5, "mat": 3, "chain": 1.5, "chain_empty": 1.2, "roundtrip_empty": 0.5, "roundtrip_mat": 0.3, "join": 0.6, "leaf": 1.5, "process": 5, "run": 1,
+             "mark": 1.2}
         return multi_gen(rng, tier, weights=w, flags_p=0.15, special_leaf_p=0.12, udf_p=0.06,
                          bounds=("exact", "loose", "zeromin", "unbounded"))
 
@@ -403,7 +404,7 @@ class C09(Profile):
     def gen(self, rng, tier):
         big = tier == "thorough"
         w = {**UNARY_W, "xfer": 2, "mat": 1.5, "chain": 1.5, "join": 1, "leaf": 1, "process": 2, "run": 3, "rebuild": 3,
-             "twice": 2, "ill": 2, "diag": 1, "cursor_open": 0.7, "pull": 1.5, "abandon": 0.3, "attach": 0.5}
+             "twice": 2, "ill": 2, "diag": 1, "cursor_open": 0.7, "pull": 1.5, "abandon": 0.3, "attach": 0.5, "mark": 0.8}
         return multi_gen(rng, tier, weights=w, flags_p=0.3, max_ops=30 if big else 14,
                          engines=rng.choice([["sql"], ["it"], ["sql", "it"], ["sql", "it", "it2"]]), named_mat=True,
                          redeclare_p=0.15)
@@ -440,7 +441,7 @@ class C10(Profile):
 
     def gen(self, rng, tier):
         w = {"calc": 2, "proj": 2, "sel": 2, "dedup": 1, "sort": 1.5, "slice": 1.5, "xfer": 3, "mat": 5, "chain": 2,
-             "chain_empty": 1.2, "roundtrip_empty": 0.4, "roundtrip_mat": 0.5, "leaf": 1, "process": 5, "run": 4, "attach": 4, "iterate": 2, "cursor_open": 0.5, "pull": 1}
+             "chain_empty": 1.2, "roundtrip_empty": 0.4, "roundtrip_mat": 0.5, "mark": 1.5, "leaf": 1, "process": 5, "run": 4, "attach": 4, "iterate": 2, "cursor_open": 0.5, "pull": 1}
         return multi_gen(rng, tier, weights=w, flags_p=0.1, engines=rng.choice([["it"], ["sql", "it"], ["sql", "it", "it2"]]),
                          max_ops=18 if tier == "thorough" else 12, udf_p=0.1)
 
@@ -542,7 +543,7 @@ class C15(Profile):
         return self.claims.get(kind)
 
     def gen(self, rng, tier):
-        w = {**UNARY_W, "xfer": 7, "mat": 4, "chain": 1, "join": 1, "leaf": 1, "process": 2, "conform_inner": 1.5, "roundtrip_mat": 0.5}
+        w = {**UNARY_W, "xfer": 7, "mat": 4, "chain": 1, "join": 1, "leaf": 1, "process": 2, "conform_inner": 1.5, "roundtrip_mat": 0.5, "mark": 1.5}
         return multi_gen(rng, tier, weights=w, flags_p=0.55,
                          engines=["sql", "it", "it2"] if rng.random() < 0.6 else ["sql", "it"])
 
@@ -567,7 +568,7 @@ class C16(Profile):
         mode = rng.choice(["sql", "it", "multi"])
         engines = {"sql": ["sql"], "it": ["it"], "multi": ["sql", "it"]}[mode]
         w = {"calc": 1, "proj": 1.5, "sel": 4, "dedup": 1, "sort": 1, "slice": 3, "chain": 3, "chain_empty": 1.5,
-             "join": 3 if mode != "it" else 0, "leaf": 2, "diag": 6}
+             "join": 3 if mode != "it" else 0, "leaf": 2, "diag": 6, "mark": 0.8}
         if mode == "multi":
             w["xfer"] = 2
             w["mat"] = 0.7
